@@ -221,6 +221,11 @@ def mk_app(fn, args=(), kw=()):
             return base
         if idx == Const(None) and isinstance(base, App) and base.fn == "getitem" and len(base.args) == 2 and base.args[1] == Const(None):
             return App("getitem", (base.args[0], Tup([Const(None), Const(None)])))  # x[None][None] = x[None, None]
+        if isinstance(base, App) and base.fn == "getitem" and len(base.args) == 2 and isinstance(base.args[1], Tup) and type(base.args[1]) is Tup \
+                and len(base.args[1].items) == 2 and base.args[1].items[0] == _full and is_const(base.args[1].items[1]) \
+                and isinstance(const_of(base.args[1].items[1]), int) and not isinstance(idx, Tup) and idx != Const(None) and idx != Const(Ellipsis):
+            # a column first, then rows: A[:, c][i] = A[i, c] for every kind of row index i (integer, slice, mask, index array)
+            return mk_app("getitem", [base.args[0], Tup([idx, base.args[1].items[1]])])
         args = [base, idx]
         if isinstance(base, App) and base.fn == "getitem" and len(base.args) == 2 and isinstance(base.args[1], Tup) and len(base.args[1].items) == 2:
             # inserting a unit axis and taking it out again: x[:, None][:, 0] = x ; t[None, :][0] = t ; t[None, None][0] = t[None]
